@@ -66,6 +66,7 @@ type Monitors struct {
 	maxRound   int64
 	crashes    int
 	digests    *RefDigests
+	selfDigest map[int]string
 	compared   int
 	uncompared int
 	power      []int64
